@@ -94,7 +94,83 @@ func stringSwitchCases(p *Prog, fn *ssa.Function) map[string]bool {
 	return out
 }
 
+// runC07PathBoundNotQuery: C07.9 (defect D64; the clause of C06 'the variable values handed to the
+// method are exactly that template's captures').  The property fixes the binding order body, path
+// variables, query parameters (C07.3) - so a query parameter that names a field the path
+// template binds would overwrite the capture: `GET /v1/alice/items?a=mallory` runs the method for
+// "mallory" on the route that was matched (and possibly authorised) for "alice".  google.api.http:
+// fields bound by the path are not query parameters.  Hence every application of a query value is
+// dominated by the failing outcome of a test that is handed the route's variables and the resolved
+// field path, and whose succeeding outcome leads only to error returns.
+func runC07PathBoundNotQuery(c *Ctx) {
+	p := c.P
+	c.Rule("C07.9", "a query parameter that names a field bound by the path template is rejected (it cannot override the capture)", 1)
+	setParam := p.MustFunc("setParameter")
+	rcp := p.MustNamed("restClientProtocol")
+	prep := p.MethodOf(rcp, "prepareUnmarshalledRequest")
+	if prep == nil {
+		fatalf("anchor=restClientProtocol.prepareUnmarshalledRequest not found")
+	}
+	varsF := p.MustField("routeTarget", "vars")
+	restVarsFld := p.MustField("operation", "restVars")
+	n := 0
+	for _, fn := range p.Family(prep) {
+		ei := errorResultIndex(fn.Signature)
+		for _, call := range Calls(fn) {
+			if call.Common().StaticCallee() != setParam || len(call.Common().Args) < 3 {
+				continue
+			}
+			fromQuery := false
+			for _, l := range Origins(call.Common().Args[2]) {
+				if l.Kind == "load" && strings.HasSuffix(l.Path, "[]") && !strings.Contains(l.Path, N(restVarsFld)) {
+					fromQuery = true
+				}
+			}
+			if !fromQuery {
+				continue
+			}
+			n++
+			fields := call.Common().Args[1]
+			ok := false
+			for _, f := range FactsAt(call.Block()) {
+				tc, isCall := f.Cond.(*ssa.Call)
+				if !isCall || f.Truth || f.If == nil {
+					continue
+				}
+				sc := tc.Call.StaticCallee()
+				if sc == nil || !p.inModule(sc) {
+					continue
+				}
+				hasVars, hasFields := false, false
+				for _, a := range tc.Call.Args {
+					for _, l := range Origins(a) {
+						if l.Kind == "load" && (l.Field == varsF || l.Field == restVarsFld) {
+							hasVars = true
+						}
+					}
+					if a == fields || strip(a) == strip(fields) {
+						hasFields = true
+					}
+				}
+				if !hasVars || !hasFields {
+					continue
+				}
+				if good, _ := succReturnsOnlyErrors(fn, f.If.Block().Succs[0], ei); good {
+					ok = true
+				}
+			}
+			c.Check(ok, "C07.9", FuncName(fn), "path-bound-field-not-a-query-parameter", call.Pos(),
+				"the query value is applied only after a test of the resolved field path against the route's path variables has failed; its succeeding outcome is an error",
+				"a query value is applied to the request message without first excluding the fields that the path template binds: since query parameters are applied after the path captures, `?a=other` replaces the value captured for {a} and the method runs for another resource than the route that was matched")
+		}
+	}
+	if n == 0 {
+		c.Bad("C07.9", FuncName(prep), "path-bound-field-not-a-query-parameter", prep.Pos(), "no application of query values through setParameter found: shape changed")
+	}
+}
+
 func runC07(c *Ctx) {
+	defer runC07PathBoundNotQuery(c)
 	p := c.P
 	// clause shared with C11: binding a repeated well-known-type parameter must not panic
 	defer c.ImportRules("C11", "C11.12")
